@@ -161,13 +161,22 @@ pub fn generate_c15(thorough: bool, seed: u64, _part: (usize, usize), em: &mut E
         if version { flags |= 0x02000000; }
         if unicode { flags |= 1; }
         if r.chance(1, 4) { flags |= 0x80000000 | 0x00020000; }
+        // both character-set bits (servers that echo the client's capability set): Unicode wins (MS-NLMP 2.2.2.5)
+        if i % 6 == 1 { flags |= 2; }
         let sc = { let b = r.bytes(8); let mut a = [0u8; 8]; a.copy_from_slice(&b); a };
         let ti = target_info(&mut r, true);
         let md = if i % 5 == 3 { *r.pick(&[4u16, 1, 100, 0xfff0]) } else { 0 };
         // every seventh handshake runs on an Ntlm object that already answered a CHALLENGE with the opposite UNICODE / VERSION choice
         if i % 7 == 6 { let ti0 = target_info(&mut r, true); *PRE_CHAL.lock().unwrap() = Some(challenge(flags ^ 0x02000001, &sc, &ti0, !version, 0, 0)); }
+        // every eleventh: the object first REFUSED a challenge (no timestamp / cut short), and the conforming one follows
+        // with or without a new NEGOTIATE message in between — the MIC covers this session's three messages only
+        if i % 11 == 5 {
+            let bad = if i % 2 == 0 { let mut t = av(2, &utf16("D")); t.extend(av(0, &[])); challenge(flags, &sc, &t, version, 0, 0) } else { let g = challenge(flags, &sc, &ti, version, 0, 0); g[..g.len() - 3].to_vec() };
+            *PRE_CHAL.lock().unwrap() = Some(bad);
+            PRE_NO_RENEG.store(i % 4 < 2, std::sync::atomic::Ordering::Relaxed);
+        }
         run_auth(em, &c, &challenge_max(flags, &sc, &ti, version, 0, 0, md));
-        *PRE_CHAL.lock().unwrap() = None;
+        *PRE_CHAL.lock().unwrap() = None; PRE_NO_RENEG.store(false, std::sync::atomic::Ordering::Relaxed);
     }
 }
 
@@ -235,6 +244,19 @@ pub fn generate_c07(thorough: bool, seed: u64, part: (usize, usize), em: &mut Em
         run_auth(em, &c, &challenge(0x62898235, &sc, &ti, true, 0, 0));
         run_auth(em, &c, &challenge(0x62898235 & !0x02000000, &sc, &ti, false, 0, 0));
     }
+    // a non-empty TargetName behind the target information: well-formed, empty-length-with-offset, odd-sized, lone /
+    // reversed surrogates, OEM bytes under the UNICODE flag (the client has no use for the name)
+    for version in &[false, true] { for unicode in &[true, false] {
+        let flags: u32 = (0x62898235 & !0x02000001) | if *version { 0x02000000 } else { 0 } | if *unicode { 1 } else { 0 };
+        let ti = { let mut v = av(2, &utf16("D")); v.extend(av(7, &[9u8; 8])); v.extend(av(0, &[])); v };
+        for name in &[utf16("SRV"), vec![0x00, 0xD8], vec![0x00, 0xDC, 0x00, 0xD8], vec![0x41, 0x00, 0x00, 0xD8], vec![0x41], vec![0xff, 0xff, 0xfe, 0xff], b"SERVER".to_vec(), vec![]] {
+            let mut m = challenge(flags, &sc, &ti, *version, 0, 0);
+            let off = m.len() as u32;
+            m.extend(name);
+            m[12..14].copy_from_slice(&(name.len() as u16).to_le_bytes()); m[14..16].copy_from_slice(&(name.len() as u16).to_le_bytes()); m[16..20].copy_from_slice(&off.to_le_bytes());
+            run_auth(em, &c, &m);
+        }
+    } }
     // a second CHALLENGE handed to the same Ntlm object (after a good one, after a refused one), with and
     // without a new NEGOTIATE message in between
     {
